@@ -385,6 +385,8 @@ class Interp(object):
             return v.cell, ()
         if isinstance(v, (StrV, BytesV)) or (isinstance(v, Tok) and v.kind == "T"):
             return Cell(v), ()     # `&str` / `&[u8; N]` constants and text tokens: reference and referent coincide
+        if getattr(v, "transparent_ref", False):
+            return Cell(v), ()     # abstract slices (engine/location.py): a slice value stands for the reference too
         raise Inconclusive("deref of %r" % (v,), self.where())
 
     def load(self, v):
@@ -500,8 +502,12 @@ class Interp(object):
                 t = Tok("I", a.name, a.val, a.off + b, a.dom, a.extra)
                 return (t, False) if op == "AddWithOverflow" else t
             if op in ("SubWithOverflow", "Sub", "SubUnchecked") and getattr(self.policy, "allow_sub", False):
-                if isinstance(a, Tok) and a.kind == "I" and isinstance(b, int) and 0 <= b <= 2:
-                    # class-wise exact as long as the world's representatives include the boundaries 0..b
+                free = getattr(self.policy, "log_literals", None) is not None and \
+                    isinstance(a, Tok) and a.dom in getattr(self.policy, "free_literal_doms", ())
+                if isinstance(a, Tok) and a.kind == "I" and isinstance(b, int) and not isinstance(b, bool) and (0 <= b <= 2 or free):
+                    # class-wise exact as long as the world's representatives include the boundaries around b
+                    if free:
+                        self.policy.log_literals.add(b)
                     self.obligations.append(("sub", self.where(), a, b))
                     t = Tok("I", a.name, a.val, a.off - b, a.dom, a.extra)
                     over = a.val + a.off - b < 0
